@@ -110,7 +110,7 @@ fn with_ref_view(kind: usize, root: &mut Raw, r: Rect, vis: &mut impl RefVisitor
         }
         5 => {
             // outer crop one pixel larger on the left/top when there is room
-            let (ox, oy) = (r.x.min(1), r.y.min(1));
+            let (ox, oy) = (r.x.min(2), r.y.min(1));
             let p = TypedImageRef::<U16>::new(rw, rh, as_pixels::<U16>(root.bytes())).unwrap();
             let outer = TypedCroppedImage::new(p, r.x - ox, r.y - oy, rw - (r.x - ox), rh - (r.y - oy)).unwrap();
             let v = TypedCroppedImage::new(outer, ox, oy, r.w, r.h).unwrap();
@@ -141,7 +141,7 @@ fn with_mut_view(kind: usize, root: &mut Raw, r: Rect, vis: &mut impl MutVisitor
             vis.visit(&mut v)
         }
         3 => {
-            let (ox, oy) = (r.x.min(1), r.y.min(1));
+            let (ox, oy) = (r.x.min(2), r.y.min(1));
             let p = TypedImage::<U16>::from_pixels_slice(rw, rh, as_pixels_mut::<U16>(root.buf.as_mut())).unwrap();
             let outer = TypedCroppedImageMut::new(p, r.x - ox, r.y - oy, rw - (r.x - ox), rh - (r.y - oy)).unwrap();
             let mut v = TypedCroppedImageMut::new(outer, ox, oy, r.w, r.h).unwrap();
@@ -604,8 +604,10 @@ pub fn prop(tier: Tier, _seed: u64) -> Prop {
         if whole_only_ref(kind) && margin != 0 {
             return;
         }
-        let (rw, rh) = (w + 2 * margin, h + 2 * margin);
-        let view = Rect { x: margin, y: margin, w, h };
+        // asymmetric placement: left != top and different right/bottom margins
+        let (ml, mt, mr, mb) = if margin == 0 { (0, 0, 0, 0) } else { (margin + 1 + (w + h) % 2, margin - 1, 1 + h % 3, 2 + w % 2) };
+        let (rw, rh) = (w + ml + mr, h + mt + mb);
+        let view = Rect { x: ml, y: mt, w, h };
         let second = w <= b2 && h <= b2;
         ctx.sample(|| json!({"view_kind": REF_KINDS[kind], "root": [rw, rh], "view": format!("{:?}", view), "triples": "start 0..B+1 ∪ {2^31,MAX-1,MAX}, size 1..B+1 ∪ {2^31,MAX}, parts 1..B+2 ∪ {MAX}", "second_level": second}));
         let mut root = Raw::from_fn(PT::U16, rw, rh, |x, y, _| tag(rw, x, y) as f64);
@@ -625,8 +627,9 @@ pub fn prop(tier: Tier, _seed: u64) -> Prop {
         if whole_only_mut(kind) && margin != 0 {
             return;
         }
-        let (rw, rh) = (w + 2 * margin, h + 2 * margin);
-        let view = Rect { x: margin, y: margin, w, h };
+        let (ml, mt, mr, mb) = if margin == 0 { (0, 0, 0, 0) } else { (margin + 1 + (w + h) % 2, margin - 1, 1 + h % 3, 2 + w % 2) };
+        let (rw, rh) = (w + ml + mr, h + mt + mb);
+        let view = Rect { x: ml, y: mt, w, h };
         ctx.sample(|| json!({"view_kind": MUT_KINDS[kind], "root": [rw, rh], "view": format!("{:?}", view), "direction": format!("{:?}", dir)}));
         let extent = if dir == Dir::H { h } else { w };
         let tr = triples(b);
@@ -658,8 +661,9 @@ pub fn prop(tier: Tier, _seed: u64) -> Prop {
         if whole_only_mut(kind) && margin != 0 {
             return;
         }
-        let (rw, rh) = (w + 2 * margin, h + 2 * margin);
-        let view = Rect { x: margin, y: margin, w, h };
+        let (ml, mt, mr, mb) = if margin == 0 { (0, 0, 0, 0) } else { (margin + 1 + (w + h) % 2, margin - 1, 1 + h % 3, 2 + w % 2) };
+        let (rw, rh) = (w + ml + mr, h + mt + mb);
+        let view = Rect { x: ml, y: mt, w, h };
         ctx.sample(|| json!({"view_kind": MUT_KINDS[kind], "root": [rw, rh], "view": format!("{:?}", view), "direction": format!("{:?}", dir), "second_level": "both directions, sub-triples"}));
         let extent = if dir == Dir::H { h } else { w };
         for start in 0..extent {
